@@ -265,6 +265,13 @@ fn parse_offset(s: &str) -> Result<Duration, HifitimeError> {
     let mut seconds: i64 = 0;
 
     match s.get(indexes.1 + colon..indexes.2 + colon) {
+        None if s.len() > indexes.1 + colon => {
+            // There is something after the hours which cannot be sliced as minutes (e.g. "-12 μs" is a duration, not an offset).
+            return Err(HifitimeError::Parse {
+                source: ParsingError::InvalidTimezone,
+                details: "invalid timezone format [+/-]HH:MM",
+            });
+        }
         None => {
             //Do nothing, we've reached the end of the useful data.
         }
